@@ -1021,9 +1021,9 @@ func ruleNoReceiverWrites(c *chk.Ctx, f *ssa.Function, rule, what string) {
 	}
 	recv := f.Params[0]
 	// taint: pointers into the receiver object, and values (slices) that alias its memory
-	ptr := map[ssa.Value]bool{recv: true}   // addresses inside the receiver object
-	alias := map[ssa.Value]bool{}           // slice/map/pointer values loaded from the receiver (share backing store)
-	copies := map[ssa.Value]bool{}          // local structs holding a shallow copy of the receiver
+	ptr := map[ssa.Value]bool{recv: true} // addresses inside the receiver object
+	alias := map[ssa.Value]bool{}         // slice/map/pointer values loaded from the receiver (share backing store)
+	copies := map[ssa.Value]bool{}        // local structs holding a shallow copy of the receiver
 	changed := true
 	for changed {
 		changed = false
@@ -1159,9 +1159,9 @@ func ruleErrCodeAccessors(c *chk.Ctx) {
 			v := ir.ReturnResult(r, 0)
 			isNoErrEdge, truth := false, false
 			for _, cd := range ir.CondsAt(r.Block()) {
-				if bo, ok := cd.V.(*ssa.BinOp); ok && bo.Op == token.EQL {
-					if k, isC := ir.ConstInt(bo.Y); isC && k == noErr {
-						isNoErrEdge, truth = true, cd.Truth
+				if _, y, op, ok := ir.Rel(cd); ok && (op == token.EQL || op == token.NEQ) {
+					if k, isC := ir.ConstInt(y); isC && k == noErr {
+						isNoErrEdge, truth = true, op == token.EQL
 					}
 				}
 			}
@@ -1201,41 +1201,85 @@ func ruleErrorCodeOrder(c *chk.Ctx) {
 		return fmt.Sprint(k)
 	}
 	var rows []string
-	for _, r := range ir.Returns(f) {
+	type row struct {
+		val   ssa.Value
+		conds []ir.Cond
+	}
+	var raw []row
+	for _, r := range effectiveReturns(c, f, 0) {
 		v := ir.ReturnResult(r, 0)
+		conds := c.P.CondsWithin(r, f)
+		// `code, ok := h(err); if ok { return code }`: the value is what h returns where ok is true
+		if e, isE := v.(*ssa.Extract); isE {
+			if call, isCall := e.Tuple.(*ssa.Call); isCall {
+				if h := call.Call.StaticCallee(); h != nil && c.P.InRepo[h] && !ir.Exported(h) {
+					done := false
+					for ci, cd := range conds {
+						fe, isFE := cd.V.(*ssa.Extract)
+						if !isFE || fe.Tuple != e.Tuple || fe.Index == e.Index {
+							continue
+						}
+						rest := append(append([]ir.Cond{}, conds[:ci]...), conds[ci+1:]...)
+						for _, r2 := range ir.Returns(h) {
+							k, isK := ir.ReturnResult(r2, fe.Index).(*ssa.Const)
+							if !isK || k.Value == nil || (k.Value.String() == "true") != cd.Truth {
+								continue
+							}
+							raw = append(raw, row{ir.ReturnResult(r2, e.Index), append(append([]ir.Cond{}, rest...), ir.CondsAt(r2.Block())...)})
+							done = true
+						}
+						break
+					}
+					if done {
+						continue
+					}
+				}
+			}
+		}
+		raw = append(raw, row{v, conds})
+	}
+	isErrPred := func(cd ir.Cond) bool {
+		call, ok := cd.V.(*ssa.Call)
+		return ok && ir.IsCallTo(&call.Call, "errors.As", "errors.Is")
+	}
+	for _, rw := range raw {
+		v := rw.val
 		res := "?"
 		if k, isC := ir.ConstInt(v); isC {
 			res = name(k)
 		} else if call, ok := v.(*ssa.Call); ok && call.Call.IsInvoke() && call.Call.Method.Name() == "ErrCode" {
 			res = "coder.ErrCode()"
 		}
-		var conds []string
-		for _, cd := range ir.CondsAt(r.Block()) {
-			d := "?"
-			if x, eq, ok := ir.NilCompare(cd.V); ok {
-				if _, isP := x.(*ssa.Parameter); isP {
-					d = "err==nil"
-					if !eq {
-						d = "err!=nil"
+		for _, alt := range expandPredicateHelpersKeep(c, rw.conds, 0, isErrPred) {
+			var conds []string
+			for _, cd := range dedupConds(alt) {
+				d := "?"
+				if x, eq, ok := ir.NilCompare(cd.V); ok {
+					if _, isP := c.P.Canon(x).(*ssa.Parameter); isP {
+						d = "err==nil"
+						if !eq {
+							d = "err!=nil"
+						}
 					}
 				}
-			}
-			if call, ok := cd.V.(*ssa.Call); ok {
-				if ir.IsCallTo(&call.Call, "errors.As") {
-					d = "As(ErrCoder)"
-				} else if ir.IsCallTo(&call.Call, "errors.Is") {
-					if g := globalLoad(call.Call.Args[1]); g != nil {
-						d = "Is(" + g.Name() + ")"
+				if call, ok := cd.V.(*ssa.Call); ok {
+					if ir.IsCallTo(&call.Call, "errors.As") {
+						d = "As(ErrCoder)"
+					} else if ir.IsCallTo(&call.Call, "errors.Is") {
+						if g := globalLoad(call.Call.Args[1]); g != nil {
+							d = "Is(" + g.Name() + ")"
+						}
 					}
 				}
+				if !cd.Truth {
+					d = "¬" + d
+				}
+				conds = append(conds, d)
 			}
-			if !cd.Truth {
-				d = "¬" + d
-			}
-			conds = append(conds, d)
+			sort.Strings(conds)
+			conds = dedupStrings(conds)
+			rows = append(rows, res+" ⇐ "+strings.Join(conds, " ∧ "))
 		}
-		sort.Strings(conds)
-		rows = append(rows, res+" ⇐ "+strings.Join(conds, " ∧ "))
 	}
 	sort.Strings(rows)
 	want := []string{
@@ -1558,7 +1602,6 @@ func ruleJSONWhitespace(c *chk.Ctx) {
 		c.Undecided("TABLE.space", nil, "first-byte scan", 0, "no first-significant-byte function found")
 	}
 }
-
 
 // reachesCallee: f calls g, directly or through at most depth unexported repository functions.
 func reachesCallee(c *chk.Ctx, f, g *ssa.Function, depth int) bool {
